@@ -18,11 +18,11 @@ func propC17() *Property {
 		Explanation: "Static guard and shape rules on package object. Decided: (R1) every conversion from a floating-point to an integer type in the module is dominated by a lower and an upper range test on the converted value (Go leaves out-of-range results implementation-defined) and, in GetNumber, by the integrality test; (R2) package object cannot panic: every type assertion is comma-ok, there is no indexing, slicing, map write or explicit panic; (R3) the non-error result of GetString is the result of ansi.Scrub and known non-empty, the empty case returns the 'absent' sentinel, and GetTime/GetURL/GetMediaType/GetMarkup obtain their text only through GetString; (R4) getPrimitive returns 'absent' (wrapping ErrKeyNotPresent) exactly on the missing-key/null edges, 'wrong type' on the failed-assertion edge and the asserted value itself on success; no other error wraps the 'absent' sentinel; no accessor returns a non-nil error together with a non-zero value; (R5) GetList returns the list itself or a one-element literal holding the value. Not decided: time.Parse, url.Parse, the media-type regexp, encoding/json's number decoding, and the exact numeric value preserved by the conversion (value semantics).",
 		Assumptions: []string{"encoding/json decodes numbers into float64, arrays into []any, objects into map[string]any"},
 		Rules: []Rule{
-			{ID: "C17.R1", Title: "float→integer conversions are range-guarded", Floor: 1, Run: c17R1},
-			{ID: "C17.R2", Title: "package object has no may-panic construct", Floor: 5, Run: c17R2},
-			{ID: "C17.R3", Title: "strings are scrubbed and non-empty; text accessors go through GetString", Floor: 6, Run: c17R3},
-			{ID: "C17.R4", Title: "absent vs wrong type; errors come with zero values", Floor: 15, Run: c17R4},
-			{ID: "C17.R5", Title: "single values are promoted to one-element lists", Floor: 2, Run: c17R5},
+			{ID: "C17.R1", Title: "float→integer conversions are range-guarded", Floor: 3, Run: c17R1},
+			{ID: "C17.R2", Title: "package object has no may-panic construct", Floor: 6, Run: c17R2},
+			{ID: "C17.R3", Title: "strings are scrubbed and non-empty; text accessors go through GetString", Floor: 7, Run: c17R3},
+			{ID: "C17.R4", Title: "absent vs wrong type; errors come with zero values", Floor: 30, Run: c17R4},
+			{ID: "C17.R5", Title: "single values are promoted to one-element lists", Floor: 1, Run: c17R5},
 		},
 	}
 }
@@ -362,6 +362,21 @@ func c17R4(c *Ctx) {
 			c.bad(name+"/shape", P.Pos(fn.Pos()), name, "getPrimitive no longer consists of a map lookup followed by a type assertion")
 			continue
 		}
+		// the assertion is reached only for a present, non-null value: JSON null
+		// must be classified as absent, not as a value of the wrong type
+		presentOK, nonNullOK := false, false
+		for _, f := range factsOf(fn).At(assert.Block()) {
+			if ex, ok := f.Cond.(*ssa.Extract); ok && ex.Tuple == ssa.Value(lookup) && ex.Index == 1 && f.Truth {
+				presentOK = true
+			}
+			if cmp, ok := f.Cmp(); ok && cmp.Op == token.NEQ && isNilConst(cmp.Y) {
+				if ex, ok := cmp.X.(*ssa.Extract); ok && ex.Tuple == ssa.Value(lookup) && ex.Index == 0 {
+					nonNullOK = true
+				}
+			}
+		}
+		c.check(presentOK && nonNullOK, name+"/absent-condition", P.InstrPos(assert), name,
+			"a missing key and an explicit null are both classified before the type is looked at", "the type assertion is reached for a missing key or a JSON null: null is reported as 'wrong type' instead of 'absent' (callers hide only 'absent')")
 		for _, b := range fn.Blocks {
 			ret, ok := b.Instrs[len(b.Instrs)-1].(*ssa.Return)
 			if !ok {
